@@ -683,7 +683,7 @@ func c06Transport(p *load.Program, r *oblig.Report) {
 							if st, ok := r2.(*ssa.Store); ok {
 								v := an.Unwrap(st.Val)
 								resDesc = v.String()
-								if mk, ok := v.(*ssa.MakeChan); ok && mk.Parent() == fn {
+								if mk, ok := v.(*ssa.MakeChan); ok && mk.Parent() == snd.Parent() {
 									if k, ok := an.ConstInt(mk.Size); ok && k == 1 {
 										okRes = true
 									}
